@@ -29,6 +29,7 @@ import (
 	"encoding/json"
 	"flag"
 	"fmt"
+	"math"
 	"math/big"
 	"math/rand"
 	"os"
@@ -77,6 +78,7 @@ type scenario struct {
 	Ctr     string `json:"ctr"`
 	Fcn     string `json:"fcn"`
 	Sharing int    `json:"sharing"`
+	Cv      int    `json:"cv"` // class "cent": the fraction in 1/100 GPU (1..99)
 	Sig     string `json:"sig"`
 }
 
@@ -215,6 +217,7 @@ func observeAdmissionAndScheduler(s *subject, adm map[int]*admissionEnv, vm *res
 		mp = denQuantity(dm, microScale, true)
 	}
 	o["d_memportion"] = mp
+	o["d_centi_lo"], o["d_centi_hi"] = roundHalfUpCenti(df)
 	s.denFrac, s.denMem = df, dm
 
 	// ---- admission: mutating webhook, then validating webhook, as the API server calls them
@@ -255,6 +258,10 @@ func observeAdmissionAndScheduler(s *subject, adm map[int]*admissionEnv, vm *res
 	o["s_count"] = intQuantity(pi.ResReq.GetNumOfGpuDevices())
 	o["s_gpus"] = floatQuantity(pi.ResReq.GPUs(), microScale)
 	o["s_requires"] = b2i(pi.IsRequireAnyKindOfGPU())
+	// accounted amounts in 1/100 GPU: total (GPUs(), GetGpusQuota()) and per device
+	o["s_gpus_centi"] = centi(pi.ResReq.GPUs())
+	o["s_quota_centi"] = centi(pi.ResReq.GetGpusQuota())
+	o["s_perdev_centi"] = centi(resource_info.NewGpuResourceRequirementWithGpus(pi.ResReq.GpuFractionalPortion(), 0).GPUs())
 
 	// binder fields are filled by the binder stage (defaults: not reached)
 	o["b_reached"], o["b_type"], o["b_count"], o["b_groups"] = 0, "", 0, 0
@@ -435,6 +442,48 @@ func mutants(r *rand.Rand, n int) []*subject {
 	return out
 }
 
+// centSpelling: the two-decimal fraction v/100 in its plain spelling (k = 0) and in other spellings
+func centSpelling(v, k int) string {
+	switch k % 3 {
+	case 0:
+		return fmt.Sprintf("0.%02d", v)
+	case 1:
+		return fmt.Sprintf("%de-2", v)
+	default:
+		return fmt.Sprintf("+.%02d0", v)
+	}
+}
+
+// roundHalfUpCenti: the denoted value in 1/100 units, rounded half up on the exact rational; lo = hi - 1 only
+// when the value sits exactly on a half (either neighbour is then accepted)
+func roundHalfUpCenti(d den) (lo, hi int) {
+	if !d.ok || d.mag != 0 || d.neg {
+		return 0, 0
+	}
+	v := new(big.Rat).Mul(d.value(), big.NewRat(100, 1))
+	if v.Cmp(big.NewRat(clampN, 1)) > 0 {
+		return clampN, clampN
+	}
+	fl := new(big.Int).Quo(v.Num(), v.Denom()) // v >= 0: floor
+	frac := new(big.Rat).Sub(v, new(big.Rat).SetInt(fl))
+	c := frac.Cmp(big.NewRat(1, 2))
+	f := int(fl.Int64())
+	switch {
+	case c < 0:
+		return f, f
+	case c > 0:
+		return f + 1, f + 1
+	}
+	return f, f + 1
+}
+
+func centi(f float64) int {
+	if math.IsNaN(f) || math.IsInf(f, 0) || math.Abs(f*100) > clampN {
+		return -1
+	}
+	return int(math.Round(f * 100))
+}
+
 func strOrAbsent(s string) string {
 	if s == gpureqcls.Absent {
 		return "<absent>"
@@ -475,7 +524,11 @@ func main() {
 			for k := 0; k < *variants; k++ {
 				sub := &subject{sc: s, cls: "class"}
 				var ok1, ok2, ok3 bool
-				sub.sFrac, ok1 = gpureqcls.Pick(gpureqcls.Frac, s.Frac, k)
+				if s.Frac == "cent" {
+					sub.sFrac, ok1 = centSpelling(s.Cv, k), s.Cv >= 1 && s.Cv <= 99
+				} else {
+					sub.sFrac, ok1 = gpureqcls.Pick(gpureqcls.Frac, s.Frac, k)
+				}
 				sub.sMem, ok2 = gpureqcls.Pick(gpureqcls.Mem, s.Mem, k)
 				sub.sDev, ok3 = gpureqcls.Pick(gpureqcls.Dev, s.Dev, k)
 				if !ok1 || !ok2 || !ok3 {
@@ -526,7 +579,7 @@ func main() {
 	nReached := 0
 	for _, s := range subjects {
 		tw.Emit(map[string]any{"ev": "Scenario", "id": s.id, "sig": s.sc.Sig, "cls": s.cls,
-			"frac": s.sc.Frac, "mem": s.sc.Mem, "dev": s.sc.Dev, "ctr": s.sc.Ctr, "fcn": s.sc.Fcn, "sharing": s.sc.Sharing,
+			"frac": s.sc.Frac, "mem": s.sc.Mem, "dev": s.sc.Dev, "ctr": s.sc.Ctr, "fcn": s.sc.Fcn, "sharing": s.sc.Sharing, "cv": s.sc.Cv,
 			"s_frac": strOrAbsent(s.sFrac), "s_mem": strOrAbsent(s.sMem), "s_dev": strOrAbsent(s.sDev),
 			"nodemem": nodeGpuMemMiB, "maxfit": gpusPerNode})
 		tw.Emit(s.obs)
